@@ -617,7 +617,7 @@ func selectItems(a arena.Arena, items []*astjson.Value, element FetchItemPathEle
 			return nil
 		}
 		if field.Type() == astjson.TypeArray {
-			return field.GetArray()
+			return flattenNestedArrays(a, field.GetArray())
 		}
 		return []*astjson.Value{field}
 	}
@@ -631,12 +631,38 @@ func selectItems(a arena.Arena, items []*astjson.Value, element FetchItemPathEle
 			continue
 		}
 		if field.Type() == astjson.TypeArray {
-			selected = arena.SliceAppend(a, selected, field.GetArray()...)
+			selected = arena.SliceAppend(a, selected, flattenNestedArrays(a, field.GetArray())...)
 			continue
 		}
 		selected = arena.SliceAppend(a, selected, field)
 	}
 	return selected
+}
+
+// flattenNestedArrays returns the elements of a list field as fetch items. The items of a
+// list of lists ([[T]]) are the elements of the inner lists: without flattening, the next
+// path element would be looked up on an array, find nothing, and every fetch below a nested
+// list would silently be skipped.
+func flattenNestedArrays(a arena.Arena, values []*astjson.Value) []*astjson.Value {
+	nested := false
+	for _, v := range values {
+		if v != nil && v.Type() == astjson.TypeArray {
+			nested = true
+			break
+		}
+	}
+	if !nested {
+		return values
+	}
+	flat := arena.AllocateSlice[*astjson.Value](a, 0, len(values))
+	for _, v := range values {
+		if v != nil && v.Type() == astjson.TypeArray {
+			flat = arena.SliceAppend(a, flat, flattenNestedArrays(a, v.GetArray())...)
+			continue
+		}
+		flat = arena.SliceAppend(a, flat, v)
+	}
+	return flat
 }
 
 func (l *Loader) itemsData(items []*astjson.Value) *astjson.Value {
